@@ -291,7 +291,18 @@ func filesCase(t *rapid.T, root string, prog *mrogen.Program) {
 	// all the files it names (also those a type conversion on the way drops)
 	bound := boundOutputs(prog)
 	exempt := func(e *filesim.Entry) bool {
-		return e.Param != "" && (bound[e.Job.CallPath+"|"+e.Param] || bound[e.Job.CallPath+"|*"])
+		if e.Param == "" {
+			return false
+		}
+		if bound[e.Job.CallPath+"|"+e.Param] || bound[e.Job.CallPath+"|*"] {
+			return true
+		}
+		for _, p := range e.AlsoIn {
+			if bound[e.Job.CallPath+"|"+p] {
+				return true
+			}
+		}
+		return false
 	}
 	_ = possiblyKept
 
